@@ -98,6 +98,9 @@ def classify_fold(req, impl_line, model_line):
         problems.append("fold-ok-eval-fails")
     if fold == "panic" and rt.startswith("ok "):
         problems.append("fold-panics-eval-ok")
+    # the integer WIDTH of the result may differ with the optimizer on (type-changing rewrite rules
+    # such as add-zero: C16's findings `sqltype:rule:*`); C14 compares the value
+    so, sn = re.sub(r"^ok i(16|32|64):", "ok int:", so), re.sub(r"^ok i(16|32|64):", "ok int:", sn)
     # optimizer on vs off: compared when eval_constant decides the expression (fold != none) or no
     # typed NULL stays symbolic in it.  Rewrite rules over a symbolic NULL operand are C01's
     # subject (the NULL-unsound ones were removed from /repo in 9930474; others remain, e.g.
